@@ -150,6 +150,7 @@ type FnV struct {
 	goSites []*ssa.Go
 	pending map[string]*pendingOb
 	panicking string
+	subSeen map[string]bool
 	pendingOrder []string
 }
 
@@ -331,6 +332,43 @@ func (fv *FnV) havoc(st *State, ms *ModSet, why string) {
 	st.now = n
 }
 
+// cellWrittenOnlyByParent: a captured local whose address only flows into closures that never assign it (they
+// may read it, or write through the value it holds). No callee can change such a cell.
+func cellWrittenOnlyByParent(a *ssa.Alloc) bool {
+	for _, ref := range *a.Referrers() {
+		switch r := ref.(type) {
+		case *ssa.Store:
+			if r.Addr != a {
+				return false // the address itself is stored somewhere
+			}
+		case *ssa.UnOp, *ssa.DebugRef, *ssa.FieldAddr, *ssa.IndexAddr:
+		case *ssa.MakeClosure:
+			fn := r.Fn.(*ssa.Function)
+			for i, b := range r.Bindings {
+				if b != a {
+					continue
+				}
+				fvv := fn.FreeVars[i]
+				for _, fr := range *fvv.Referrers() {
+					switch x := fr.(type) {
+					case *ssa.UnOp, *ssa.DebugRef:
+					case *ssa.Store:
+						if x.Addr == fvv {
+							return false
+						}
+						return false
+					default:
+						return false
+					}
+				}
+			}
+		default:
+			return false
+		}
+	}
+	return true
+}
+
 type localSnap struct {
 	key, ref, val string
 }
@@ -340,7 +378,10 @@ func (fv *FnV) snapshotLocals(st *State) []localSnap {
 	var out []localSnap
 	for v, sv := range fv.vals {
 		a, ok := v.(*ssa.Alloc)
-		if !ok || a.Heap || sv.ptr == nil {
+		if !ok || sv.ptr == nil {
+			continue
+		}
+		if a.Heap && !cellWrittenOnlyByParent(a) {
 			continue
 		}
 		t := a.Type().Underlying().(*types.Pointer).Elem()
@@ -970,7 +1011,7 @@ func (fv *FnV) siteText(p token.Pos, want string) string {
 		ok := false
 		switch x := n.(type) {
 		case *ast.IndexExpr:
-			ok = want == "index" && (x.Lbrack == p || x.Pos() == p)
+			ok = (want == "index" || want == "mapstore") && (x.Lbrack == p || x.Pos() == p)
 		case *ast.SliceExpr:
 			ok = want == "slice" && (x.Lbrack == p || x.Pos() == p)
 		case *ast.TypeAssertExpr:
